@@ -267,12 +267,13 @@ def build_repo_bins(bins, timeout=2400):
     return rc == 0, out, os.path.join(CACHE, "target-repo", "debug")
 
 
-def gen_tables(spec, vh):
-    """Regenerate coq/Gen files of this property from the implementation's behaviour."""
+def gen_tables(spec, vh, tier="quick"):
+    """Regenerate coq/Gen files of this property from the implementation's behaviour.
+    The tier is visible to the harness as env VERIF_TIER (a generator may cache an expensive sweep in the quick tier)."""
     tmp = os.path.join(CACHE, "gen", spec["id"])
     shutil.rmtree(tmp, ignore_errors=True)
     os.makedirs(tmp)
-    rc, out = run([vh, spec["id"], "tables", "--out", tmp], timeout=900)
+    rc, out = run([vh, spec["id"], "tables", "--out", tmp], timeout=900, env={"VERIF_TIER": tier})
     if rc != 0:
         return False, out, []
     changed = []
@@ -390,7 +391,7 @@ def check(pid, tier="quick", seed=None, n_override=None, replay=None):
 
     # 2. tables
     if vh and spec.get("tables"):
-        okt, outt, changed = gen_tables(spec, vh)
+        okt, outt, changed = gen_tables(spec, vh, tier)
         if not okt:
             log(outt[-2000:])
             broken.append("tables:generation-failed")
